@@ -60,6 +60,8 @@ BENIGN = [
     "enable secret ''",
     "y" * 5000,
     "  \x0c  ",
+    "  description café ٣٤ naïve ４２",
+    "alias exec ｓｈｏｗ show",
 ]
 
 # ---------------------------------------------------------------------------
@@ -168,6 +170,8 @@ def addr_pool6(r, n=4):
         v = b if c < 0.2 else (b ^ (1 << r.randint(0, 127)) if c < 0.6 else ((b >> 16) << 16) | r.getrandbits(16))
         if v not in out and v >> 112 != 0:      # keep clear of ::a.b.c.d shaped values
             out.append(v)
+    if r.random() < 0.3:
+        out.append(r.choice([0xFE80 << 112 | 1, 0x20010DB8 << 96, (0x20010DB8 << 96) | 1, 0xFF02 << 112 | 2]))
     return out
 
 
@@ -175,7 +179,7 @@ def addr_pool6(r, n=4):
 # secrets
 # ---------------------------------------------------------------------------
 B64 = "./0123456789ABCDEFGHIJKLMNOPQRSTUVWXYZabcdefghijklmnopqrstuvwxyz"
-TEXT_MID = "ghijklmnopqrstuvwxyzGHIJKLMNOPQRSTUVWXYZ0123456789_-+=@#%^&*.!?~"
+TEXT_MID = "ghijklmnopqrstuvwxyzGHIJKLMNOPQRSTUVWXYZ0123456789_-+=@#%^&*.!?~$()|<>"
 GZ = "ghijklmnopqrstuvwxyz"
 J9_FAMILY = ["QzF3n6/9CAtpu0O", "B1IREhcSyrleKvMW8LXx", "7N-dVbwsY2g4oaJZGUDj", "iHkq.mPf5T"]
 J9_ALPHA = "".join(J9_FAMILY)
@@ -506,6 +510,8 @@ def gen_words(r, n, forbidden_text):
                 b[: max(3, len(b) - 1)] if c < 0.75 else "".join(r.choice(GZ) for _ in range(r.randint(1, 2))) + b)
         else:
             w = "".join(r.choice("gjkqvwxyz" if i % 2 == 0 else "ouyiz") for i in range(r.randint(3, 8)))
+            if len(w) >= 4 and r.random() < 0.1:
+                w = w[:2] + r.choice("üéñ") + w[3:]          # a non-ASCII letter inside (case folding beyond ASCII)
         w = w[:8]
         if len(w) < 3 or w in words or w in "netconanremoved" or w in low:
             continue
